@@ -118,6 +118,10 @@ pub struct WalWriter {
     entry_count: usize,
     bytes_written: u64,
     error_handler: Option<Arc<WalErrorHandler>>,
+    /// Set when a failed append could not be rolled back. The file may then end in a partial
+    /// frame, and any frame appended after it would be unreadable, so further appends are
+    /// refused until the WAL is reopened (restart creates a fresh segment).
+    poisoned: bool,
 }
 
 impl WalWriter {
@@ -157,6 +161,7 @@ impl WalWriter {
             entry_count: 0,
             bytes_written: 4, // Magic header
             error_handler,
+            poisoned: false,
         })
     }
 
@@ -198,20 +203,47 @@ impl WalWriter {
         stable_offset: u64,
         stable_entry_count: usize,
     ) -> Result<()> {
+        self.ensure_not_poisoned()?;
         match self.append_internal(entry) {
             Ok(()) => Ok(()),
             Err(write_err) => {
-                let write_err_msg = write_err.to_string();
-                self.rollback_to_stable_state(stable_offset, stable_entry_count)
-                    .with_context(|| {
-                        format!(
-                            "WAL write failed ({}); rollback to offset {} failed",
-                            write_err_msg, stable_offset
-                        )
-                    })?;
+                if let Err(rollback_err) =
+                    self.rollback_to_stable_state(stable_offset, stable_entry_count)
+                {
+                    return Err(self.poison(&write_err, stable_offset, &rollback_err));
+                }
                 Err(write_err)
             }
         }
+    }
+
+    fn ensure_not_poisoned(&self) -> Result<()> {
+        if self.poisoned {
+            bail!(
+                "WAL segment {} is poisoned by an earlier failed rollback; refusing to append (restart required)",
+                self.path.display()
+            );
+        }
+        Ok(())
+    }
+
+    /// A failed append that cannot be rolled back may leave a partial frame at the tail.
+    /// Retrying would append a frame *after* that garbage and acknowledge a write that
+    /// recovery cannot read, so the writer is poisoned and the error is made non-retryable
+    /// (no I/O error in its cause chain).
+    fn poison(
+        &mut self,
+        write_err: &anyhow::Error,
+        stable_offset: u64,
+        rollback_err: &anyhow::Error,
+    ) -> anyhow::Error {
+        self.poisoned = true;
+        anyhow::anyhow!(
+            "WAL write failed ({:#}); rollback to offset {} failed ({:#}); WAL segment poisoned until restart",
+            write_err,
+            stable_offset,
+            rollback_err
+        )
     }
 
     fn write_entry(&mut self, entry: &WalEntry) -> Result<()> {
@@ -319,17 +351,15 @@ impl WalWriter {
         stable_offset: u64,
         stable_entry_count: usize,
     ) -> Result<()> {
+        self.ensure_not_poisoned()?;
         match self.append_batch_internal(entries) {
             Ok(()) => Ok(()),
             Err(write_err) => {
-                let write_err_msg = write_err.to_string();
-                self.rollback_to_stable_state(stable_offset, stable_entry_count)
-                    .with_context(|| {
-                        format!(
-                            "WAL batch write failed ({}); rollback to offset {} failed",
-                            write_err_msg, stable_offset
-                        )
-                    })?;
+                if let Err(rollback_err) =
+                    self.rollback_to_stable_state(stable_offset, stable_entry_count)
+                {
+                    return Err(self.poison(&write_err, stable_offset, &rollback_err));
+                }
                 Err(write_err)
             }
         }
